@@ -110,8 +110,18 @@ func init() {
 	registry.Checks["C01"] = mirrorCheck("C01", "C01", ruleCommon+"every commit event (committing view change, committed-header store write, committed header handed to the state machine, accepted replay) is certified by independently verifying the precommit signatures the node holds against the chain-prescribed validator set; non-trivial = execution that admitted a vote or committed a header, distinct by final canonical state")
 	registry.Checks["C04"] = mirrorCheck("C04", "C04", ruleCommon+"after every event: committed hashes never change, heights contiguous from the initial height, hash links, stored and in-memory positions never regress, voting = committing+1; non-trivial as C01")
 	registry.Checks["C05"] = mirrorCheck("C05", "C05", ruleCommon+"after every event every signature reachable from views, gossip updates, state-machine views, round store and header store is re-verified with crypto/ed25519 against the sign bytes of the kind/height/round/hash it is filed under; all-invalid messages must leave the full observable snapshot unchanged and must not be Accepted; non-trivial as C01")
-	registry.Checks["C06"] = mirrorCheck("C06", "C06", ruleCommon+"every vote summary seen (views, gossip, state machine) is recomputed from the signer bitsets; every voting-round change must be justified by distinct validators' delivered votes; non-trivial as C01")
-	registry.Checks["C07"] = mirrorCheck("C07", "C07", ruleCommon+"after every event the voting and committing views' validator sets must equal the chain-prescribed set, match the next-set hashes of the header committed below, and hash to their own hashes; non-trivial as C01")
+	c06rest := nodeCheck("C06", "C06", ruleNode+ruleCommon+"C06: (a) the real VoteSummary on ALL assignments of n<=4 (thorough 5) validators x power vectors over {1,2,3,1e6} x every validator signing any subset of {nil,A,B}, compared with an order-independent recomputation; (b) every vote summary seen in any explored execution is recomputed from the signer bitsets, every voting-round change and every delay-timer start must be justified by distinct validators; non-trivial as C01", true)
+	registry.Checks["C06"] = func(c *vx.Ctx) {
+		n := 4
+		if !c.Quick() {
+			n = 5
+		}
+		exploreVoteSum(c, n)
+		c06rest(c)
+	}
+	registry.Checks["C06old"] = mirrorCheck("C06", "C06", ruleCommon+"every vote summary seen (views, gossip, state machine) is recomputed from the signer bitsets; every voting-round change must be justified by distinct validators' delivered votes; non-trivial as C01")
+	registry.Checks["C07"] = nodeCheck("C07", "C07", ruleNode+ruleCommon+"C07 (state machine side): the engine's own proposals carry exactly the driver's validator sets, it signs only while its key is in the set, the strategy is never shown a proposal with other sets; non-trivial as C01", true)
+	registry.Checks["C07old"] = mirrorCheck("C07", "C07", ruleCommon+"after every event the voting and committing views' validator sets must equal the chain-prescribed set, match the next-set hashes of the header committed below, and hash to their own hashes; non-trivial as C01")
 	registry.Checks["C11"] = mirrorCheck("C11", "C11", ruleCommon+"per-consumer monitors over everything the gossip and state-machine consumers received (strictly increasing versions, growing proposals and signer sets), currency after the final drain, nil-round precommits delivered; non-trivial as C01")
 }
 
